@@ -369,6 +369,21 @@ Definition solve_Px (k : pkg) (S : solvers) (z : vec) (T : Q) : res (Q * vec) :=
 
 Definition dew_call k S := point_call (solve_Tx k S) (solve_Px k S).
 
+(* ---------- histories of calls on one BubblePoint / DewPoint pair ---------- *)
+(* The objects keep nothing between calls (the y / x buffers are created per call, the package objects are
+   functions of their arguments), so a history is executed call by call against the same [pkg]. *)
+Inductive pcall :=
+| CTy (z : vec) (P : Q) | CPy (z : vec) (T : Q) | CTx (z : vec) (P : Q) | CPx (z : vec) (T : Q).
+Definition exec_call (k : pkg) (S : solvers) (c : pcall) : res (Q * vec) :=
+  match c with
+  | CTy z P => solve_Ty k S z P
+  | CPy z T => solve_Py k S z T
+  | CTx z P => solve_Tx k S z P
+  | CPx z T => solve_Px k S z T
+  end.
+Definition run_calls (k : pkg) (S : solvers) (cs : list pcall) : list (res (Q * vec)) :=
+  map (exec_call k S) cs.
+
 (* ---------- oracle stand-ins used by the correspondence cases (mirrored in props/C08.py) ---------- *)
 (* stand-ins round their results to 2^-64 (the implementation rounds to 53 bits; compared at 1e-9):
    keeps the exact rationals of long evaluation chains small *)
